@@ -1361,5 +1361,31 @@ Proof.
     cbn in Ec. rewrite orb_false_r in Ec. zb. apply orb_true_iff in Ec as [Ec|Ec]; zb; auto.
 Qed.
 
-(* nobody but withdraw_balance on `who` (and deal payments/slashing) lowers who's escrow: a withdrawal
-   on another account leaves it alone -- this is the frame clause of withdraw_exact *)
+(* a rejected message changes nothing (the VM rolls the state back) *)
+Ltac brk :=
+  repeat match goal with
+  | |- context [match ?x with _ => _ end] =>
+      match type of x with
+      | bool => destruct x
+      | option _ => destruct x
+      | list _ => destruct x
+      | target => destruct x
+      | res _ => destruct x
+      | (_ * _)%type => destruct x
+      end
+  | |- context [if ?b then _ else _] => destruct b
+  end.
+
+Theorem step_rejected_unchanged st o st' c r : step st o = (st', c :: r) -> c <> OK -> st' = st.
+Proof.
+  destruct o; cbn [step].
+  - unfold add_balance. brk; intros [= <- <- <-]; congruence.
+  - unfold withdraw_balance. brk; intros [= <- <- <-]; congruence.
+  - unfold publish. brk; try (intros [= <- <- <-]; congruence).
+  - unfold batch_activate. brk; intros [= <- <- <-]; congruence.
+  - unfold sector_content_changed. brk; intros [= <- <- <-]; congruence.
+  - unfold terminate. brk; intros [= <- <- <-]; congruence.
+  - unfold settle. brk; intros [= <- <- <-]; congruence.
+  - unfold cron_tick. brk; intros [= <- <- <-]; congruence.
+  - unfold get_balance. brk; intros [= <- <- <-]; congruence.
+Qed.
